@@ -238,10 +238,14 @@ def install_table_seam():
     _installed["table"] = True
 
 
-def silence():
-    """Log emission is the one stubbed library behaviour: PLY logs the whole automaton at INFO."""
+def silence(disable_logging=True):
+    """Log *emission* is the one stubbed library behaviour.  stderr goes to /dev/null everywhere.  In the table-cache
+    incarnations logging is also disabled (PLY formats ~3 MB of automaton at INFO on every regeneration); in the parsers
+    and files worlds the logging module is left alone, so that the root configuration each constructor performs - and
+    anything the library derives from it - is real."""
     import logging
-    logging.disable(logging.CRITICAL)
+    if disable_logging:
+        logging.disable(logging.CRITICAL)
     devnull = _real_os.open(_real_os.devnull, _real_os.O_WRONLY)
     _real_os.dup2(devnull, 2)
     sys.stderr = open(_real_os.devnull, "w")
